@@ -28,6 +28,13 @@ func checkGoSeq(p GoProject) pbt.Verdict {
 		order = append(order, i)
 	}
 	order = append(order, 0) // the first file again, after the others
+	files := append([]GoFile{}, p.Files...)
+	if p.Again != nil {
+		// then another text of the same length under the path of the first file, and the first file once more
+		files = append(files, *p.Again)
+		order = append(order, len(files)-1, 0)
+	}
+	p.Files = files
 	parser := ast_go.NewCocagoParser()
 	results := make([]*core_domain.CodeContainer, len(order))
 	for k, fi := range order {
@@ -63,6 +70,9 @@ func checkGoSeq(p GoProject) pbt.Verdict {
 		if msg := judgeContainer(kept[k], p.Files[fi], ""); msg != "" {
 			return fail("the result of analysis #%d with one GoIdentApp (%s) changed while later files were analysed: %s", k+1, p.Files[fi].Path, msg)
 		}
+	}
+	if p.Again != nil {
+		p.Files = files[:len(files)-1] // the verdict counts the project's own files
 	}
 	v := projectVerdict(p)
 	v.Classes = append(v.Classes, "one_parser_for_all_files")
